@@ -46,8 +46,8 @@ def _second_connection(loop, store):
                    "number, null}, a from 32 JSON values (every type; event and filter objects with type-confused fields), b "
                    "from 6, n in 1..3 (all symbolic selectors), or the bare value a as the whole message; mode in {plain, "
                    "authentication enabled + throttle 2, rate limiter refusing the first message}; then a probe REQ and a "
-                   "disconnect; a second connection holds a subscription")
-def ob_handler_survives(a: int, b: int, n: int, bare: bool, mode: int) -> str:
+                   "disconnect, delivered when the relay is idle or (symbolic) all buffered in advance; a second connection holds a subscription")
+def ob_handler_survives(a: int, b: int, n: int, bare: bool, mode: int, eager: bool) -> str:
     """
     pre: 0 <= a < 16 and 0 <= b < len(SMALL) and 1 <= n <= 3
     pre: not bare or (n == 1 and b == 0)
@@ -69,6 +69,8 @@ def ob_handler_survives(a: int, b: int, n: int, bare: bool, mode: int) -> str:
     va, vb = pick(JUNK, a), pick(SMALL, b)
     m0 = va if bare else [HEAD, va, vb][:n]
     conn = C.Conn(loop, [m0, ["REQ", "probe", {"kinds": [1]}]])
+    if eager:
+        conn.eager = [True, True, True]    # every frame and the disconnect are already buffered: receive() never yields
     lim = C.Limiter(limited_at=(0,) if limited else ())
     try:
         loop.run(C.run_client(loop, store, conn, limiter=lim))
@@ -76,6 +78,8 @@ def ob_handler_survives(a: int, b: int, n: int, bare: bool, mode: int) -> str:
         return "handler wedged: %s" % e
     except Exception as e:
         return "exception escaped the connection handler: %r" % (e,)
+    except C.CancelledError as e:
+        return "CancelledError escaped the connection handler"
     loop.settle()
     frames = conn.frames()
     for f in frames:
@@ -83,7 +87,8 @@ def ob_handler_survives(a: int, b: int, n: int, bare: bool, mode: int) -> str:
             return "unexpected frame %r" % (f,)
     probe_answered = any(f[0] == "EOSE" and f[1] == "probe" for f in frames) or \
         any(f[0] == "NOTICE" for (i, t) in conn.sent for f in [C.json.loads(t)] if i == 2)
-    if not conn.closed and not probe_answered:
+    # (when every frame and the disconnect were buffered in advance the client was gone before the relay could answer)
+    if not conn.closed and not probe_answered and not eager:
         return "connection kept open but the probe REQ got no EOSE/NOTICE: %r" % (frames,)
     if len(store.clients) != 1 or other_cid not in store.clients:
         return "registry after disconnect: %d clients (the other connection %s)" % (
